@@ -249,3 +249,20 @@ Proof.
   first [ (vm_compute in E; discriminate E)
         | (split; [discriminate | vm_compute; reflexivity]) ].
 Qed.
+
+(* ------------------------------------------------------------------ names SQLite reserves *)
+Definition never_reserved_stmt : Prop :=
+  forall id c t, In (c, t) vocab_pairs -> reserved_name (table_name S256 id c t) = false.
+
+Lemma never_reserved_fixed_pf : reserved_rule_present = true -> never_reserved_stmt.
+Proof. intros R id c t _. apply table_name_not_reserved, R. Qed.
+
+(* without the rule: the id "sqlite" (also "SQLite", "sqlite-x", "sqlite_master", ...) *)
+Lemma reserved_refuted_pf : gen_reserved_guard = false -> ~ never_reserved_stmt.
+Proof.
+  intro G.
+  first [ (vm_compute in G; discriminate G)
+        | (intro Hn; specialize (Hn sqlite_word (fst pair0) (snd pair0));
+           assert (Hin : In (fst pair0, snd pair0) vocab_pairs) by (vm_compute; left; reflexivity);
+           specialize (Hn Hin); vm_compute in Hn; discriminate Hn) ].
+Qed.
